@@ -363,6 +363,11 @@ class Inotify:
                                     _move_to_path = _path.replace(move_src_path, inotify_event.src_path, 1)
                                     self._wd_for_path[_move_to_path] = moved_wd
                                     self._path_for_wd[moved_wd] = _move_to_path
+                    elif self.is_recursive and inotify_event.is_directory:
+                        # The directory was not watched under its old name: it came from outside
+                        # the watched tree, or it was renamed before its watch could be added.
+                        with contextlib.suppress(OSError):
+                            self._add_dir_watch(src_path, self._event_mask, recursive=True)
                     src_path = os.path.join(wd_path, name)
                     inotify_event = InotifyEvent(wd, mask, cookie, name, src_path)
 
